@@ -215,7 +215,11 @@ class LTSSMController(Elaboratable):
 
 
         def handle_warm_resets():
-            """ FSM helper that automatically moves back to the Rx.Detect.Reset state when appropriate."""
+            """ FSM helper that automatically moves back to the Rx.Detect.Reset state when appropriate.
+
+            This must be the last thing emitted in a state: a later ``m.next`` overrides an earlier one,
+            so only then does a warm reset win over the state's other transitions (e.g. into U0).
+            """
 
             # If we're in USB reset, we're actively receiving warm reset signaling; and we should reset
             # to the Rx.Detect.Reset state.
@@ -321,6 +325,9 @@ class LTSSMController(Elaboratable):
                 with m.If(self.no_link_partner_detected):
                     transition_to_state("Rx.Detect.Quiet")
 
+                # Warm reset handling comes last, so it takes priority over any other transition.
+                handle_warm_resets()
+
 
             # Rx.Detect.Quiet -- we've performed a link detection, but didn't detect anyone.
             # We'll wait here until our next detection cycle, saving the power of performing
@@ -333,6 +340,9 @@ class LTSSMController(Elaboratable):
 
                 # After 12ms, try again.
                 transition_on_timeout(12e-3, to="Rx.Detect.Active")
+
+                # Warm reset handling comes last, so it takes priority over any other transition.
+                handle_warm_resets()
 
 
             # Polling.LFPS -- now that we know there's someone listening on the other side, we'll
@@ -383,6 +393,9 @@ class LTSSMController(Elaboratable):
                 with m.Else():
                     transition_on_timeout(360e-3, to="SS.Disabled.Default")
 
+                # Warm reset handling comes last, so it takes priority over any other transition.
+                handle_warm_resets()
+
 
 
             # Polling.RxEQ -- we've now seen the other side of our link, and are ready to initialize
@@ -390,8 +403,6 @@ class LTSSMController(Elaboratable):
             # and give the PHY time to achieve DC equalization.
             # [USB 3.2.r1: 7.5.4.7]
             with m.State("Polling.RxEQ"):
-                handle_warm_resets()
-
                 # Continuously send TSEQs; these are used to perform receiver equalization training.
                 m.d.comb += self.send_tseq_burst.eq(1)
 
@@ -402,13 +413,14 @@ class LTSSMController(Elaboratable):
                 with m.If(self.ts_burst_complete):
                     transition_to_state("Polling.Active")
 
+                # Warm reset handling comes last, so it takes priority over any other transition.
+                handle_warm_resets()
+
 
             # Polling.Active -- we've now exchanged our initial training sequences, and we're ready to
             # begin exchaning our core training sequences. We'll start sending TS1, and let the PHY handle
             # link training until it reliably the same thing from the host. [USB 3.2r1: 7.5.4.8]
             with m.State("Polling.Active"):
-                handle_warm_resets()
-
                 # Constantly send TS1s; which indicate that we're in link training, but haven't yet
                 # seen enough TS1s to move forward with training.
                 m.d.comb += self.send_ts1_burst.eq(1)
@@ -444,12 +456,13 @@ class LTSSMController(Elaboratable):
                         m.d.ss += self.invert_rx_polarity.eq(1),
                         transition_to_state("Polling.Configuration")
 
+                # Warm reset handling comes last, so it takes priority over any other transition.
+                handle_warm_resets()
+
 
             # Polling.Configuration -- we're now satisfied with our link training; we'll need to communicate
             # this to the other side, and wait for the other side to advertise the same. [USB3.2r1; 7.5.4.9]
             with m.State("Polling.Configuration"):
-                handle_warm_resets()
-
                 # Constantly send TS2s, which both allow the other side to continue link training and
                 # advertise that our side has completed link training itself.
                 m.d.comb += self.send_ts2_burst.eq(1)
@@ -464,14 +477,15 @@ class LTSSMController(Elaboratable):
                 with m.If(self.ts_burst_complete & ts2_seen):
                     transition_to_state("Polling.Configuration.Exit")
 
+                # Warm reset handling comes last, so it takes priority over any other transition.
+                handle_warm_resets()
+
 
             # Polling.Configuration.Exit [synthetic state; not from the specification] -- once we're
             # satisfied with our TS1/TS2 exchange, we're required to send at least 16 more TS2s, to ensure
             # that the other side sees enough TS2s to know that we're both done. In this state, we'll send
             # a burst of TS2s.
             with m.State("Polling.Configuration.Exit"):
-                handle_warm_resets()
-
                 # Continue to send TS2s...
                 m.d.comb += self.send_ts2_burst.eq(1)
 
@@ -479,13 +493,14 @@ class LTSSMController(Elaboratable):
                 with m.If(self.ts_burst_complete):
                     transition_to_state("Polling.Idle")
 
+                # Warm reset handling comes last, so it takes priority over any other transition.
+                handle_warm_resets()
+
 
             # Polling.Idle -- we've now finished link training, and we're ready to move on to real
             # communications. We'll perform one final sanity check, and then move to our next state.
             # [USB3.2r1: 7.5.4.10]
             with m.State("Polling.Idle"):
-                handle_warm_resets()
-
                 m.d.comb += [
                     # From this state onward, we have an active link, and we can thus enable data scrambling.
                     self.enable_scrambling       .eq(~self.request_no_scrambling & ~disable_scrambling_seen),
@@ -514,12 +529,13 @@ class LTSSMController(Elaboratable):
                 # start our connection process from the beginning.
                 transition_on_timeout(2e-3, to="Rx.Detect.Reset")
 
+                # Warm reset handling comes last, so it takes priority over any other transition.
+                handle_warm_resets()
+
 
             # U0 -- our primary active USB state, in which we've completed link bringup and now are
             # performing normal USB3 operations.
             with m.State("U0"):
-                handle_warm_resets()
-
                 m.d.comb += [
                     # We're now ready for normal operation -- we'll mark our link as ready,
                     # and keep our normal scrambling enabled.
@@ -539,12 +555,14 @@ class LTSSMController(Elaboratable):
 
                 # TODO: handle the various other cases for leaving U0
 
+                # Warm reset handling comes last, so it takes priority over any other transition.
+                handle_warm_resets()
+
+
             # Hot Reset.Active -- during link training, we've seen a training set indicating
             # we should perform a hot reset. We're now performing a TS2 handshake, modified so
             # we are also sending Hot Reset.
             with m.State("Hot Reset.Active"):
-                handle_warm_resets()
-
                 # As in Polling.Configuration, we'll send TS2s; but we'll send them with our
                 # Hot Reset bit set.
                 m.d.comb += [
@@ -564,12 +582,13 @@ class LTSSMController(Elaboratable):
                 with m.If(self.ts_burst_complete & ts2_seen & ~self.hot_reset_requested):
                     transition_to_state("Hot Reset.Exit")
 
+                # Warm reset handling comes last, so it takes priority over any other transition.
+                handle_warm_resets()
+
 
             # Hot Reset.Exit -- we've now finished link training, and we're ready to move on to having
             # an active link. We'll now perform a reduced-complexity Idle handshake.
             with m.State("Hot Reset.Exit"):
-                handle_warm_resets()
-
                 m.d.comb += [
                     # From this state onward, we have an active link, and we can thus enable data scrambling.
                     self.enable_scrambling       .eq(~self.request_no_scrambling & ~disable_scrambling_seen),
@@ -587,14 +606,15 @@ class LTSSMController(Elaboratable):
                 # We'll consider our link irrecoverable.
                 transition_on_timeout(2e-3, to="SS.Inactive.Quiet")
 
+                # Warm reset handling comes last, so it takes priority over any other transition.
+                handle_warm_resets()
+
 
             # Recovery.Active -- our link is no longer in a reliably usable state; we'll need
             # to perform a re-training before we can use it fully. However, since we've already
             # performed our initial receiver equalization, we can maintain its settings and perform
             # only the last steps of training.
             with m.State("Recovery.Active"):
-                handle_warm_resets()
-
                 # As in Polling.Active, we'll send TS1s to establish training.
                 m.d.comb += self.send_ts1_burst.eq(1)
 
@@ -617,12 +637,13 @@ class LTSSMController(Elaboratable):
                     with m.If(self.ts1_detected | self.ts2_detected):
                         transition_to_state("Recovery.Configuration")
 
+                # Warm reset handling comes last, so it takes priority over any other transition.
+                handle_warm_resets()
+
 
             # Recovery.Configuration -- we're now satisfied with our link training; we'll need to communicate
             # this to the other side, and wait for the other side to advertise the same. [USB3.2r1; 7.5.4.9]
             with m.State("Recovery.Configuration"):
-                handle_warm_resets()
-
                 # Constantly send TS2s.
                 m.d.comb += self.send_ts2_burst.eq(1)
 
@@ -636,14 +657,15 @@ class LTSSMController(Elaboratable):
                 with m.If(self.ts_burst_complete & ts2_seen):
                     transition_to_state("Recovery.Configuration.Exit")
 
+                # Warm reset handling comes last, so it takes priority over any other transition.
+                handle_warm_resets()
+
 
             # Recovery.Configuration.Exit [synthetic state; not from the specification] -- once we're
             # satisfied with our TS1/TS2 exchange, we're required to send at least 16 more TS2s, to ensure
             # that the other side sees enough TS2s to know that we're both done. In this state, we'll send
             # a burst of TS2s.
             with m.State("Recovery.Configuration.Exit"):
-                handle_warm_resets()
-
                 # Continue to send TS2s...
                 m.d.comb += self.send_ts2_burst.eq(1)
 
@@ -651,12 +673,13 @@ class LTSSMController(Elaboratable):
                 with m.If(self.ts_burst_complete):
                     transition_to_state("Recovery.Idle")
 
+                # Warm reset handling comes last, so it takes priority over any other transition.
+                handle_warm_resets()
+
 
             # Recovery.Idle -- we've now finished link re-training; and are waiting to see that the other
             # side has also finished sending TS2s [USB3.2r1: 7.5.4.10].
             with m.State("Recovery.Idle"):
-                handle_warm_resets()
-
                 m.d.comb += [
                     # Restore scrambling, and repeat our idle handshake.
                     self.enable_scrambling       .eq(~self.request_no_scrambling & ~disable_scrambling_seen),
@@ -683,12 +706,13 @@ class LTSSMController(Elaboratable):
                 # assume we've lost our link partner, and move to SS.Inactive.
                 transition_on_timeout(2e-3, to="SS.Inactive.Quiet")
 
+                # Warm reset handling comes last, so it takes priority over any other transition.
+                handle_warm_resets()
+
 
             # Compliance -- we've failed link training in such a way as to believe we're in the
             # middle of a compliance test / validation (lucky us!).
             with m.State("Compliance"):
-                handle_warm_resets()
-
                 # According to the spec, if we reach this state then we should stay in it and
                 # emit appropriate test patterns.
                 #
@@ -703,30 +727,34 @@ class LTSSMController(Elaboratable):
                     # Maybe this time it'll work.
                     transition_to_state("Rx.Detect.Reset")
 
+                # Warm reset handling comes last, so it takes priority over any other transition.
+                handle_warm_resets()
+
 
             # Loopback -- during the link bringup, our link partner requested that we go into
             # Loopback mode; so we'll begin acting as a loopback device.
             with m.State("Loopback"):
-                handle_warm_resets()
                 m.d.comb += self.act_as_loopback.eq(1)
 
                 # FIXME: detect Loopback Exit LFPS, and exit this state.
+
+                # Warm reset handling comes last, so it takes priority over any other transition.
+                handle_warm_resets()
 
 
             # SS.Inactive.Quiet -- an non-recoverable error has occurred somewhere with the link.
             # We'll wait for a bit here and do nothing, so we don't completely drain power.
             with m.State("SS.Inactive.Quiet"):
-                handle_warm_resets()
-
                 m.d.comb += self.tx_electrical_idle.eq(1),
                 transition_on_timeout(12e-3, to="SS.Inactive.Disconnect.Detect")
+
+                # Warm reset handling comes last, so it takes priority over any other transition.
+                handle_warm_resets()
 
 
             # SS.Inactive.Disconnect.Detect  -- our best case scenario is that we become disconnected,
             # and then are reconnected to establish a working link. We'll check for disconnection.
             with m.State("SS.Inactive.Disconnect.Detect"):
-                handle_warm_resets()
-
                 m.d.comb += [
                     self.tx_electrical_idle    .eq(1),
                     self.perform_rx_detection  .eq(1)
@@ -742,12 +770,13 @@ class LTSSMController(Elaboratable):
                 with m.If(self.no_link_partner_detected):
                     transition_to_state("Rx.Detect.Quiet")
 
+                # Warm reset handling comes last, so it takes priority over any other transition.
+                handle_warm_resets()
+
 
             # SS.Disabled.Default -- the SuperSpeed portion of our link is disabled; we'll remove
             # our terminations and attempt to act as a valid USB2 device.
             with m.State("SS.Disabled.Default"):
-                handle_warm_resets()
-
                 m.d.comb += [
                     self.tx_electrical_idle    .eq(1),
                     self.engage_terminations   .eq(0)
@@ -755,15 +784,19 @@ class LTSSMController(Elaboratable):
 
                 # FIXME: transition to SS.Disabled.Error if we get here three times without success.
 
+                # Warm reset handling comes last, so it takes priority over any other transition.
+                handle_warm_resets()
+
 
             # SS.Disabled.Error -- the SuperSpeed portion of our link is disabled; we'll remove
             # our terminations and sit idly until VBUS is cycled.
             with m.State("SS.Disabled.Error"):
-                handle_warm_resets()
-
                 m.d.comb += [
                     self.tx_electrical_idle    .eq(1),
                     self.engage_terminations   .eq(0)
                 ]
+
+                # Warm reset handling comes last, so it takes priority over any other transition.
+                handle_warm_resets()
 
         return m
